@@ -371,7 +371,8 @@ def compare_with_serial(
             lossy = present and spec.UNIT[comm_dt] > spec.UNIT[pdt] * 1.0001
             if comm_dt == torch.float16 and pdt == torch.bfloat16:
                 lossy = present  # fp16 has the finer mantissa but the smaller range: handled as a rounding regime
-            if not bool(torch.isfinite(ws).all()) or not bool(torch.isfinite(wd).all()):
+            if not bool(torch.isfinite(ws).all()) or not bool(torch.isfinite(wd).all()) or (ws.numel() and float(ws.abs().max()) > 1e12):
+                # non-finite or blown-up trajectory: no verdict on the remaining steps (engine.SingleRun.SANE_LIMIT)
                 probes["nonfinite_param_skip"] += 1
                 return None
             if not lossy:
@@ -499,7 +500,8 @@ def compare_with_twin(
             lossy = lossy_possible and present and spec.UNIT[comm_dt] > spec.UNIT[pdt] * 1.0001
             if lossy_possible and comm_dt == torch.float16 and pdt == torch.bfloat16:
                 lossy = present
-            if not bool(torch.isfinite(ws).all()) or not bool(torch.isfinite(wd).all()):
+            if not bool(torch.isfinite(ws).all()) or not bool(torch.isfinite(wd).all()) or (ws.numel() and float(ws.abs().max()) > 1e12):
+                # non-finite or blown-up trajectory: no verdict on the remaining steps (engine.SingleRun.SANE_LIMIT)
                 probes["nonfinite_param_skip"] += 1
                 return None
             if not lossy:
